@@ -322,6 +322,13 @@ def generate(tier):
     return {
         "probes": ps,
         "rule": f"typed term grammar, depth <= {depth} projections: Write source {{Gc::write on the black holder, Gc::write on a white co-owner sharing its Rc/Arc/Gc fields, Write::from_mut of a reference / a clone / a local carrier (Box, Rc, Arc, Vec, array, Option, Result, VecDeque, BTreeMap, HashMap) of a reference, Write::from_static}} x {len(FIELDS)} holder fields (Lock, RefLock, OnceLock directly and behind Box, Rc, Arc, Vec, array, VecDeque, BTreeMap, HashMap, Option, Result, Gc, nested struct, and two-level nestings) x projection chains {{as_deref, as_write, index, range index, key index, field!}} typed under an over-approximate model (DerefWrite / IndexWrite assumed for every pointer and container incl. Gc) x sink by lock kind; plus fixed probes (forged Write, unsafe accessors without unsafe, Cell/RefCell fields under derive incl. require_static + bound combinations, Static<Cell>, user Unlock / DerefWrite / IndexWrite impls, user index types that deref a Gc element). Every accepted program is run: holder black in a fully marked arena (first and later cycle), fresh white child; violation = child reachable through the holder but destructed. Non-trivial = all but the 8 controls",
+        "post": post,
         "level": "exploration",
         "assumptions": ["pinned rustc 1.95 decides acceptance", "exhaustive over the stated grammar, not over all safe programs", "accepted programs are run in one scenario family (holder black / fully marked arena, before and after a first cycle)"],
     }
+
+
+def post(tier, cm):
+    """'Equivalently, every safe program that compiles satisfies C01': the sanctioned adoption paths themselves
+    (safe setters of locks allocated directly in a Gc, stash of an upgrade result) explored in every collector state."""
+    return cm.explorer_stage("C13", tier, [("S2bcw", "", 120), ("S2dw", "", 240)] if tier == "quick" else [("S2bcw", "", 300), ("S2dw", "", 600), ("S3bc", "", 1800)])
